@@ -15,7 +15,7 @@ def make(rng):
           (['C'], ['A'], 'massaction', {'k': rng.uniform(0.2, 1)}, rng.choice(['fixed', 'gaussian', 'gamma']), [], ['B'],
            {'delay': 0.5, 'mean': 1.0, 'std': 0.1, 'k': 2.0, 'theta': 0.3}),
           ([], ['A'], rng.choice(['hillpositive', 'hillnegative']), {'k': 1.0, 'K': 2.0, 'n': 2, 's1': 'C'}),
-          (['A'], [], 'general', {'rate': 'k1*A/(1+B^2) + Max(A, 0.1)*0.01'})]
+          (['A'], [], 'general', {'rate': 'k1*A/(1+B^2) + A*Max(B, 0.1)*0.01'})]      # vanishes at A = 0 (a rate that is positive without its reactant drives counts negative)
     r = list(rx[1]); keys = {'fixed': ['delay'], 'gaussian': ['mean', 'std'], 'gamma': ['k', 'theta']}[r[4]]
     r[7] = {k: r[7][k] for k in keys}; rx[1] = tuple(r)
     return Model(species=['A', 'B', 'C', 'D'], reactions=rx, parameters=[('k1', rng.uniform(0.5, 2))],
